@@ -158,6 +158,153 @@ def correspond(ctx):
             ctx.mismatch("final MPO of iterate vs U1.U2^dagger", {"n": n, "gates1": [(ci.operation.name, [qc1.find_bit(q).index for q in ci.qubits]) for ci in qc1.data],
                                                                  "gates2": [(ci.operation.name, [qc2.find_bit(q).index for q in ci.qubits]) for ci in qc2.data]},
                          float(np.max(np.abs(dense_mpo - want))), 0.0)
+    schedule_correspondence(ctx)
+
+
+# ---- schedule of the construction: real mpo_utils.iterate vs Model/Checker.iterate ---------------------------------------------
+def gen_gate_lists(rng, n, m, longp=0.25):
+    def circ():
+        out = []
+        for _ in range(int(rng.integers(0, m + 1))):
+            if rng.random() < 0.4 or n < 2:
+                out.append(("G1", [int(rng.integers(0, n))]))
+            else:
+                a = int(rng.integers(0, n))
+                if rng.random() < longp and n > 2:
+                    b = int(rng.choice([x for x in range(n) if x != a]))
+                else:
+                    b = a + 1 if a + 1 < n and (a == 0 or rng.random() < 0.5) else a - 1
+                out.append(("G2", [a, b]))
+        return out
+
+    return circ(), circ()
+
+
+def tagged_circuit(n, gates, base):
+    """gate number i carries the angle 0.1 + 0.01*(base+i): its identity can be read back from the gate object"""
+    from qiskit import QuantumCircuit
+
+    qc = QuantumCircuit(n)
+    for i, (k, qs) in enumerate(gates):
+        th = 0.1 + 0.01 * (base + i)
+        if k == "G1":
+            qc.rx(th, qs[0])
+        else:
+            qc.rzz(th, qs[0], qs[1])
+    return qc
+
+
+def checker_trace(n, g1, g2):
+    """(side, gate id) of every application the real iterate performs (apply_gate for zone gates, the gate-MPO path for
+    long-range gates), and the sweep order select_starting_point chose."""
+    import mqt.yaqs.digital.utils.mpo_utils as U
+    from qiskit.converters import circuit_to_dag
+    from qiskit.dagcircuit import DAGOpNode
+
+    from mqt.yaqs.core.data_structures.networks import MPO
+
+    log, info = [], {}
+    saved = (U.apply_gate, U.convert_dag_to_tensor_algorithm, U.select_starting_point, U.apply_long_range_layer)
+
+    def gid(th):
+        return int(round((float(th) - 0.1) / 0.01))
+
+    def apply_gate(gate, theta, s0, s1, *a, conjugate=False, **kw):
+        log.append(("R" if conjugate else "L", gid(gate.theta)))
+        return saved[0](gate, theta, s0, s1, *a, conjugate=conjugate, **kw)
+
+    def conv(dag, *a, **kw):
+        out = saved[1](dag, *a, **kw)
+        if isinstance(dag, DAGOpNode) and info.get("lr") is not None:
+            log.append(("R" if info["lr"] else "L", gid(out[0].theta)))
+            info.setdefault("prefs", []).append(gid(out[0].theta))
+        return out
+
+    def sel(nq, dag, *a, **kw):
+        r = saved[2](nq, dag, *a, **kw)
+        info["sweep"] = list(r[0]) + list(r[1])
+        return r
+
+    def lr(mpo, d1, d2, thr, *a, conjugate, **kw):
+        info["lr"] = conjugate
+        try:
+            return saved[3](mpo, d1, d2, thr, *a, conjugate=conjugate, **kw)
+        finally:
+            info["lr"] = None
+
+    U.apply_gate, U.convert_dag_to_tensor_algorithm, U.select_starting_point, U.apply_long_range_layer = apply_gate, conv, sel, lr
+    err = None
+    try:
+        mpo = MPO()
+        mpo.identity(n)
+        with common.time_limit(20):
+            U.iterate(mpo, circuit_to_dag(tagged_circuit(n, g1, 0)), circuit_to_dag(tagged_circuit(n, g2, 100)), 1e-13)
+    except common.HardTimeout:
+        err = "TIMEOUT"
+    except Exception as e:  # noqa: BLE001
+        err = f"EXC:{type(e).__name__}:{e}"
+    finally:
+        U.apply_gate, U.convert_dag_to_tensor_algorithm, U.select_starting_point, U.apply_long_range_layer = saved
+    return log, info.get("sweep") or [], err, info.get("prefs", [])
+
+
+def trace_normal_form(log, qubits):
+    """Within a run of applications on the same side, gates on disjoint qubits may be applied in either order (Qiskit lists the
+    nodes of a DAG layer in its own order): each maximal same-side run is replaced by its lexicographically least linearisation
+    that keeps the order of every two gates sharing a qubit (Mazurkiewicz normal form).  Run boundaries are kept."""
+    out, i = [], 0
+    while i < len(log):
+        j = i
+        while j < len(log) and log[j][0] == log[i][0]:
+            j += 1
+        run = [g for _, g in log[i:j]]
+        done = []
+        while run:
+            avail = [g for k, g in enumerate(run) if not any(set(qubits[h]) & set(qubits[g]) for h in run[:k])]
+            pick = min(avail)
+            done.append(pick)
+            run.remove(pick)
+        out += [(log[i][0], g) for g in done]
+        i = j
+    return out
+
+
+def schedule_correspondence(ctx):
+    from common import g_list
+
+    hdr = "From Coq Require Import List. Import ListNotations.\nFrom Yaqs Require Import Model.DigitalLoop Model.Checker."
+
+    def g_circ(gates, base):
+        return g_list([f"mk {base + i}%nat {k} {g_list([str(q) + '%nat' for q in qs])}" for i, (k, qs) in enumerate(gates)])
+
+    cases, exprs, impl = [], [], []
+    for k in range(ctx.scale(80, 1500)):
+        n = int(ctx.rng.integers(2, 8))
+        g1, g2 = gen_gate_lists(ctx.rng, n, int(ctx.rng.integers(1, 9)))
+        if k % 7 == 0:
+            g1, g2 = g2, []
+        log, sweep, err, prefs = checker_trace(n, g1, g2)
+        impl.append((log, err))
+        cases.append(dict(n=n, gates1=g1, gates2=g2, sweep=sweep, layer_order=prefs))
+        exprs.append(f"match iterate_with {g_list([str(x) + '%nat' for x in prefs])} {len(g1) + len(g2) + 1} {g_list([str(x) + '%nat' for x in sweep])} (init {g_circ(g1, 0)} {g_circ(g2, 100)}) with "
+                     "Some s => Some (map (fun p => (match fst p with L => false | R => true end, id (snd p))) (log s)) | None => None end")
+    vals = common.coq_eval_sharded(hdr, exprs, tag="c04s")
+    for c, (log, err), v in zip(cases, impl, vals):
+        qubits = {i: q for i, (_, q) in enumerate(c["gates1"])}
+        qubits.update({100 + i: q for i, (_, q) in enumerate(c["gates2"])})
+        lr = any(len(q) == 2 and abs(q[0] - q[1]) > 1 for q in qubits.values())
+        ctx.case(nontrivial_key=("sched", str(c)) if lr or (c["gates1"] and c["gates2"]) else None, validated=True,
+                 sample={**c, "applications": log} if lr and len(ctx.samples) < 3 else None)
+        ctx.count("schedule_long_range" if lr else "schedule_short")
+        want = None if v is None else [("R" if a else "L", b) for a, b in (v[1] if not isinstance(v, list) else v)]
+        if err or want is None or trace_normal_form(log, qubits) != trace_normal_form(want, qubits):
+            ctx.mismatch("applications of mpo_utils.iterate (side, gate) vs Checker.iterate, up to reordering gates on disjoint qubits inside a same-side run",
+                         c, err or log, want, key="schedule")
+        # property-level content: every gate exactly once, on its side
+        ids = sorted(g for _, g in log)
+        if not err and (ids != sorted(qubits) or any((sd == "L") != (g < 100) for sd, g in log)):
+            ctx.violation("schedule-once", f"iterate applied gates {log} for circuits with {len(c['gates1'])} and {len(c['gates2'])} gates: "
+                          "not every gate exactly once on its own side", {"oracle": "schedule", **c})
 
 
 def pair_oracle(args):
@@ -224,6 +371,11 @@ def search(ctx):
 
 def replay(ctx, data):
     rp = data.get("replay", data)
+    if rp.get("oracle") == "schedule":
+        log, _, err, _ = checker_trace(rp["n"], [tuple(g) for g in rp["gates1"]], [tuple(g) for g in rp["gates2"]])
+        n1, n2 = len(rp["gates1"]), len(rp["gates2"])
+        ok = not err and sorted(g for _, g in log) == list(range(n1)) + list(range(100, 100 + n2))
+        return None if ok else f"applications {log} {err or ''}"
     if rp.get("oracle") == "pair":
         return pair_oracle(rp["args"])
     if rp.get("oracle") == "verdict":
